@@ -12,7 +12,7 @@ import z3
 
 from . import loader, spec
 from .interp import (Interp, Ctx, Shared, PyRaise, Restart, Infeasible, CannotConvert)
-from .values import (Sym, PObj, PList, PDict, PSet, DictView, JsonText, BoundMethod, BuiltinMethod, Closure, Foreign,
+from .values import (Sym, PObj, PList, PGenList, PDict, PSet, DictView, JsonText, BoundMethod, BuiltinMethod, Closure, Foreign,
                      Opaque, Unsupported, LockVal, AnyVal, V, mk, kind_of, is_sym, z3_of, decode_z3_string)
 from .spec import WILD, Pre, Post, SpecError
 
@@ -55,6 +55,23 @@ class Gen:
                        'non-ASCII code points (blocks computed with the real re engine); sound because the code inspects strings only '
                        'through such classes, ASCII literals, length, split on ASCII and int()')
         return s
+
+    def genlist(self, name, elem=None):
+        """a list of ANY length (no bound) of elements produced by `elem(name)` (default: texts); see values.PGenList"""
+        from .values import PGenList
+        elem = elem or self.text
+        n = self.int(name + '_len', lo=0)
+        gen = elem(name + '_any')
+        ctx = self.ctx
+        k = [0]
+
+        def new_elem():
+            k[0] += 1
+            save = len(ctx.inputs)
+            w = elem(f'{name}_wit{k[0]}')
+            del ctx.inputs[save:]          # a witness is chosen by the path, it is not an input
+            return w
+        return PGenList(n, gen, new_elem)
 
     def atom(self, name):
         from .values import UUID_RANGE
@@ -120,6 +137,10 @@ def snapshot(v, memo=None):
         memo[id(v)] = o
         o.d = snapshot(v.d, memo)
         return o
+    if isinstance(v, PGenList):
+        l = PGenList(v.n, v.gen, v.new_elem, core=v.core)     # immutable under the supported operations
+        memo[id(v)] = l
+        return l
     if isinstance(v, PList):
         l = PList()
         memo[id(v)] = l
@@ -297,6 +318,14 @@ class Reifier:
             lk = ReplayLock(v.held)
             self.memo[id(v)] = lk
             return lk
+        if isinstance(v, PGenList):
+            # a concrete member of the family the path describes: min(n, 3) copies of the last witness (if the path has
+            # one) else of the generic element -- the path depends on the list only through those
+            n = self.ev(v.n.t).as_long()
+            x = self(v.wit[-1] if v.wit else v.gen)
+            l = [x] * min(n, 3)
+            self.memo[id(v)] = l
+            return l
         if isinstance(v, PList):
             l = []
             self.memo[id(v)] = l
